@@ -27,14 +27,17 @@ Record cfg := mkCfg {
   cfg_weak_refused : bool;  (* true: the DES backend refuses weak keys and rfbEncryptBytes ignores it (before fix 2, commit fa69878) *)
   cfg_unreg_single : bool;  (* true: rfbUnregisterSecurityHandler unlinks exactly one handler and clears its ->next
                                (proposed notes/fix_C05_3.diff); false: it recurses on ->next (code as of /repo HEAD) *)
-  cfg_ext : list Z          (* the security types of the four application handler objects (ids 2..5) *)
+  cfg_ext : list Z;         (* the security types of the four application handler objects (ids 2..5) *)
+  cfg_tight : bool          (* true: object 2 is the library's own tightVncSecurityHandler (type 16), registered by
+                               rfbRegisterTightVNCFileTransferExtension: choosing it starts the nested TightVNC
+                               tunneling / authentication-capability negotiation of rfbtightserver.c *)
 }.
 Definition default_ext : list Z := [16%Z; 30%Z; c05_rfbSecTypeVncAuth; c05_rfbSecTypeNone].
 (* the code with fixes 1 and 2, parametrised by the list-handling variant and the application types *)
-Definition cfgF (single : bool) (ext : list Z) : cfg := mkCfg false false single ext.
-Definition cfg_fixed : cfg := cfgF false default_ext.      (* /repo HEAD *)
-Definition cfg_fixed3 : cfg := cfgF true default_ext.      (* HEAD + notes/fix_C05_3.diff *)
-Definition cfg_legacy : cfg := mkCfg true true false default_ext.   (* before the fixes: regression witness only *)
+Definition cfgF (single : bool) (ext : list Z) (tight : bool) : cfg := mkCfg false false single ext tight.
+Definition cfg_fixed : cfg := cfgF false default_ext false.     (* fixes 1+2, list handling before 019f1b9: regression witness *)
+Definition cfg_fixed3 : cfg := cfgF true default_ext false.     (* /repo HEAD (019f1b9 = notes/fix_C05_3.diff) *)
+Definition cfg_legacy : cfg := mkCfg true true false default_ext false.   (* before the fixes: regression witness only *)
 
 (* ---------------------------------------------------------------- bytes *)
 Definition be16 (x : N) : list N := N_to_bytes 2 x.
@@ -229,7 +232,9 @@ Inductive pwmode :=
 
 Record screen := mkScreen { s_pw : pwmode; s_w : N; s_h : N; s_name : list N }.
 
-Inductive cstate := StPV | StSec | StAuth | StInit | StNormal | StClosed.
+(* StTAuth / StTResp: inside rfbHandleSecTypeTight (cl->state is still RFB_SECURITY_TYPE): the server is
+   blocked in rfbReadExact for the 4-byte TightVNC authentication type / for the 16-byte response *)
+Inductive cstate := StPV | StSec | StTAuth | StTResp | StAuth | StInit | StNormal | StClosed.
 
 Record conn := mkConn {
   c_screen : nat;
@@ -447,6 +452,19 @@ Definition on_version (cf : cfg) (s : screen) (e : env) (c : conn) (msg : list N
       else auth_new_client cf s e (set_minor c mi)
   end.
 
+(* rfbHandleSecTypeTight -> rfbSendTunnelingCaps (no tunnelling: count 0) -> rfbSendAuthCaps: one
+   capability (VNC authentication, vendor "STDV", name "VNCAUTH_") iff the screen has a password and
+   the connection is not a reverse one, else none and the client is let in *)
+Definition tight_vnc_cap : list N :=
+  be32 (Z.to_N c05_rfbSecTypeVncAuth) ++ [83; 84; 68; 86]%N ++ [86; 78; 67; 65; 85; 84; 72; 95]%N.
+Definition tight_start (s : screen) (c : conn) : conn :=
+  let c1 := add_out c (be32 0) in
+  if has_password s && negb (c_rev c) then
+    set_st (add_out c1 (be32 1 ++ tight_vnc_cap)) StTAuth
+  else
+    let c2 := add_out c1 (be32 0) in
+    set_st (if (7 <? c_minor c)%Z then add_out c2 auth_ok else c2) StInit.
+
 (* rfbProcessClientSecurityType *)
 Definition on_sectype (cf : cfg) (s : screen) (e : env) (c : conn) (chosen : N) : env * conn * bool :=
   match hs_find LIST_FUEL (htypes (cfg_ext cf)) (cfg_global_check cf) (e_hs e) (h_head (e_hs e)) (Z.of_N chosen) (primary_type s c) with
@@ -454,8 +472,18 @@ Definition on_sectype (cf : cfg) (s : screen) (e : env) (c : conn) (chosen : N) 
   | Some HReject => (e, set_st c StClosed, false)
   | Some HAuth => let '(e', c') := send_challenge e c in (e', c', false)
   | Some HNone => let '(c', co) := auth_none s c in (e, c', co)
-  | Some (HExt k) => (e, set_st (add_ext c k) StClosed, false)   (* harness handler: log + rfbCloseClient *)
+  | Some (HExt k) =>
+      if cfg_tight cf && Nat.eqb k 2 then (e, tight_start s c, false)
+      else (e, set_st (add_ext c k) StClosed, false)   (* harness handler: log + rfbCloseClient *)
   end.
+
+(* rfbProcessClientAuthType (rfbtightserver.c): the chosen authentication type must be in the list
+   sent (only VNC authentication is ever offered); then the challenge, and rfbAuthProcessClientMessage
+   is called at once *)
+Definition on_tight_auth (e : env) (c : conn) (msg : list N) : env * conn :=
+  if N.eqb (bytes_to_N msg) (Z.to_N c05_rfbSecTypeVncAuth) then
+    let '(e', c') := send_challenge e c in (e', set_st c' StTResp)
+  else (e, set_st c StClosed).
 
 (* screen->passwordCheck(cl, response, CHALLENGESIZE).
    PwNone (only reachable before fix 1): the screen keeps the default rfbDefaultPasswordCheck,
@@ -501,6 +529,8 @@ Definition msg_len (st : cstate) : nat :=
   | StPV => Z.to_nat c05_sz_rfbProtocolVersionMsg
   | StSec => 1
   | StAuth => Z.to_nat c05_CHALLENGESIZE
+  | StTAuth => 4
+  | StTResp => Z.to_nat c05_CHALLENGESIZE
   | StInit => Z.to_nat c05_sz_rfbClientInitMsg
   | _ => 0
   end.
@@ -515,6 +545,8 @@ Definition on_message (cf : cfg) (s : screen) (e : env) (c : conn) (msg : list N
       | [] => (env_err e, c, false)
       end
   | StAuth => let '(e', c') := on_response cf s e c msg in (e', c', false)
+  | StTAuth => let '(e', c') := on_tight_auth e c msg in (e', c', false)
+  | StTResp => let '(e', c') := on_response cf s e c msg in (e', c', false)
   | StInit =>
       match msg with
       | b :: _ => let '(c', co) := client_init s c b in (e, c', co)
@@ -557,6 +589,10 @@ Definition flag_err (p : proc) : proc :=
 Definition flag_unmod (p : proc) : proc :=
   mkProc (p_hs p) (p_screens p) (p_conns p) (p_rand p) (p_err p) true.
 
+(* states in which the server sits in a blocking rfbReadExact inside a handler: if the bytes are not
+   already there the read times out and the client is closed *)
+Definition blocking (st : cstate) : bool := match st with StTAuth | StTResp => true | _ => false end.
+
 (* bytes [buf] arrive on connection [ci] (all at once), optionally followed by the peer shutting
    down its sending side; the server then processes one message per event-loop round until the
    socket is drained.  An incomplete message ends in rfbReadExact failing (time-out or EOF):
@@ -577,7 +613,7 @@ Fixpoint deliver (fuel : nat) (cf : cfg) (p : proc) (ci : nat) (buf : list N) (e
               end
           | st =>
               match buf with
-              | [] => if eof then put_conn p (env_of p) ci (set_st c StClosed) false else p
+              | [] => if eof || blocking st then put_conn p (env_of p) ci (set_st c StClosed) false else p
               | _ :: _ =>
                   let n := msg_len st in
                   if Nat.ltb (length buf) n then put_conn p (env_of p) ci (set_st c StClosed) false
@@ -663,6 +699,7 @@ Definition st_code (s : cstate) : Z :=
   | StPV => c05_RFB_PROTOCOL_VERSION
   | StSec => c05_RFB_SECURITY_TYPE
   | StAuth => c05_RFB_AUTHENTICATION
+  | StTAuth | StTResp => c05_RFB_SECURITY_TYPE
   | StInit => c05_RFB_INITIALISATION
   | StNormal => c05_RFB_NORMAL
   | StClosed => (-1)%Z
